@@ -190,8 +190,14 @@ def run_genidx(ctx=None):
                 located += 1
                 failed.setdefault(t, []).append("%s:%d: %s" % (os.path.basename(path), line, msg[:600]))
         if not located:
-            raise Internal("lake build %s failed, and no error could be attributed to a gen_eq_* theorem:\n%s"
-                           % (" ".join(MODULES), out[-4000:]))
+            # The tie modules (or the hand-written lemma files they import, which mention regenerated names) do not build against the
+            # regenerated definitions, and the error is not inside one theorem: e.g. a struct the lemmas name is no longer translatable
+            # because the source gave it a new field. On the unchanged tree these modules build (setup, every run), so the cause is the
+            # source change: EVERY tie of this translator is a broken obligation — a verdict, not an internal error.
+            first = re.search(r"error: [^\n]*(?:\n(?!\S*(?:error|warning|info):).*){0,3}", out)
+            why = "the tie modules do not build against the regenerated definitions: " + (first.group(0)[:600] if first else out[-600:])
+            for t in TIES:
+                failed.setdefault(t, []).append(why)
     return rep, failed, out, {"translator_build_s": round(t1 - t0, 2), "translate_s": round(t2 - t1, 2),
                               "lake_s": round(t3 - t2, 2)}
 
